@@ -11,7 +11,7 @@ import copy
 import itertools as it
 
 from ..engine import chunks
-from ..impl import Converter, canon, curies, indexes, model_of, observe, rec_key, record_set, to_record, views
+from ..impl import Record, Converter, canon, curies, indexes, model_of, observe, rec_key, record_set, to_record, views
 from ..refmodel import Model, mrec
 from ..refmodel import chain as model_chain
 from ..refmodel import subconverter as model_sub
@@ -34,6 +34,8 @@ def universe():
         out += [[mrec("a", "x", (), (), "^1$")], [mrec("A", "X", ("a",), (), "^2$")], [mrec("b", "xy", (), ("x",), "^3$"), mrec("a", "X")]]
         # case variants whose spellings differ in length (casefold: "ß" -> "ss", "ﬁ" -> "fi")
         out += [[mrec("ß", "u1")], [mrec("SS", "u2")], [mrec("ss", "u3", ("k",))], [mrec("k1", "http://ﬁ/")], [mrec("k2", "http://FI/")], [mrec("ß", "u4"), mrec("SS", "u5")], [mrec("k3", "u6", ("SS",))], [mrec("k4", "u7", ("ß",), ("http://ﬁ/x",))], [mrec("k5", "u8", (), ("http://FI/x",))]]
+        # the two sides are separate name spaces: a string may be a CURIE prefix of one record and a URI prefix of another (or the same)
+        out += [[mrec("x", "a")], [mrec("x", "x")], [mrec("a", "x", ("x",))], [mrec("b", "x", (), ("a",))], [mrec("a", "a", ("x",), ("b",))], [mrec("x", "b", ("b",), ("x",))]]
         _UNIVERSE = out
     return _UNIVERSE
 
@@ -226,6 +228,19 @@ def check_sub(recs_json, delim_rewrite, P, ctx=None):
             for p in r.prefixes:
                 if sub.expand(p + ":1") is not None or sub.standardize_prefix(p) is not None:
                     fails.append(("sub/answers-on-dropped-record", f"{where}: prefix {p!r} of a dropped record is still known"))
+    if not fails and recs:
+        # restriction follows the parent's *current* records: a synonym gained by a merge after an earlier restriction selects its record
+        try:
+            conv.add_record(Record(prefix="zs9", uri_prefix=recs[0].uri_prefix), merge=True)
+            conv.add_prefix("zt9", "zt9/")
+            for P2, want in ((["zs9"], {recs[0].prefix}), (["zt9"], {"zt9"}), (["zs9", "zt9"], {recs[0].prefix, "zt9"})):
+                got = {r.prefix for r in conv.get_subconverter(P2).records}
+                if got != want:
+                    fails.append(("sub/stale-after-the-parent-changed", f"{where}; then the parent gained synonym 'zs9' (merge) and record 'zt9': get_subconverter({P2}) keeps {sorted(got)}, expected {sorted(want)}"))
+            if sub.standardize_prefix("zs9") is not None or sub.standardize_prefix("zt9") is not None:
+                fails.append(("sub/earlier-restriction-follows-the-parent", f"{where}: the restriction taken earlier knows prefixes its parent gained later"))
+        except Exception as e:  # noqa
+            fails.append(("sub/raises/" + type(e).__name__, f"{where}; then after the parent changed: {type(e).__name__}: {e}"))
     if ctx is not None:
         ctx.state(hash(canon(sub)))
         ctx.count("evaluations", len(qs) * 3)
